@@ -28,7 +28,7 @@ def main():
         for v in out["violations"]:
             key = (v["oracle"], tuple(sorted((k, str(x)) for k, x in v["features"].items())))
             viol[key] += 1
-            first.setdefault((v["oracle"], v["features"].get("exc"), v["features"].get("k")), (i, v["detail"]))
+            first.setdefault((v["oracle"], v["features"].get("exc"), v["features"].get("k"), v["features"].get("kind"), v["features"].get("subscriber_hosted_it"), v["features"].get("where"), v["features"].get("msg_class"), v["features"].get("algo")), (i, v["detail"]))
     dt = time.time() - t0
     print(f"{n} runs in {dt:.1f}s ({n/dt:.0f}/s) nontrivial={nontriv}")
     print(dict(stats))
